@@ -22,13 +22,14 @@ _STR = z3.StringSort()
 QUICK_MS = int(os.environ.get('PYVC_Z3_QUICK_MS', '250'))
 FULL_S = int(os.environ.get('PYVC_SOLVER_S', '20'))
 FEAS_S = int(os.environ.get('PYVC_FEAS_S', '8'))
+FEAS_RETRY_S = int(os.environ.get('PYVC_FEAS_RETRY_S', '60'))
 CVC5 = '/usr/bin/cvc5'
 
 class Infeasible(Exception): pass
 class OutsideSubset(Exception): pass
 class Undecided(Exception): pass
 
-STATS = {'z3': 0, 'z3_t': 0.0, 'cvc5': 0, 'cvc5_t': 0.0, 'unknown': 0, 'bad_model': 0}
+STATS = {'z3': 0, 'z3_t': 0.0, 'cvc5': 0, 'cvc5_t': 0.0, 'unknown': 0, 'bad_model': 0, 'feas_retry': 0, 'obl_retry': 0}
 
 # ----------------------------------------------------------------------------- regex -> z3
 def _rng(a, b): return z3.Range(z3.StringVal(chr(a)), z3.StringVal(chr(b)))
@@ -418,7 +419,7 @@ def _solve(constraints, want_model=False, budget_s=None, label=''):
     STATS['unknown'] += 1
     if os.environ.get('PYVC_DUMP_UNKNOWN'):
         import hashlib
-        txt = sol2.to_smt2(); fn = os.path.join(os.environ['PYVC_DUMP_UNKNOWN'], hashlib.md5(txt.encode()).hexdigest()[:10] + '.' + label + '.smt2')
+        txt = smt; fn = os.path.join(os.environ['PYVC_DUMP_UNKNOWN'], hashlib.md5(txt.encode()).hexdigest()[:10] + '.' + label + '.smt2')
         open(fn, 'w').write('(set-logic QF_SLIA)\n' + txt)
     raise Undecided(f'both solvers unknown ({label})')
 
@@ -623,7 +624,13 @@ class PathState:
                 if v & want and not v <= want: want |= v; changed = True
         return [c for c, v in zip(cs, vs) if (v & want) or not v]
     def feasible(self, extra=()):
-        r = solve(self._sliced(list(extra)), label='feasibility', budget_s=FEAS_S)
+        cs = self._sliced(list(extra))
+        try: r = solve(cs, label='feasibility', budget_s=FEAS_S)
+        except Undecided:
+            # both solvers ran out of their (wall-clock) budget: on a busy machine that happens to queries that take 2-5 s alone.  One retry with a
+            # budget sized for a fully loaded 16-core machine, so that the verdict of a check does not depend on what else is running.
+            STATS['feas_retry'] = STATS.get('feas_retry', 0) + 1
+            r = solve(cs, label='feasibility-retry', budget_s=FEAS_RETRY_S)
         return r[0] == 'sat'
     def model(self, extra=(), budget_s=None):
         cs = self._constraints(extra, all_domains=True)
@@ -653,9 +660,13 @@ class PathState:
             try: return 'refuted', self.model()
             except Undecided as e: return 'undecided', str(e)
         try:
-            r0 = solve(self._sliced([z3.Not(cond.z)]), label='obligation-slice')        # unsat of the slice discharges the obligation
-            if r0[0] == 'unsat': return 'discharged', r0[2]
-            r = solve(self._constraints([z3.Not(cond.z)], all_domains=True), want_model=True, label='obligation')
+            try:
+                r0 = solve(self._sliced([z3.Not(cond.z)]), label='obligation-slice')        # unsat of the slice discharges the obligation
+                if r0[0] == 'unsat': return 'discharged', r0[2]
+                r = solve(self._constraints([z3.Not(cond.z)], all_domains=True), want_model=True, label='obligation')
+            except Undecided:
+                STATS['obl_retry'] = STATS.get('obl_retry', 0) + 1          # one retry with a budget sized for a fully loaded machine (see feasible)
+                r = solve(self._constraints([z3.Not(cond.z)], all_domains=True), want_model=True, label='obligation-retry', budget_s=FEAS_RETRY_S)
         except Undecided as e: return 'undecided', str(e)
         if r[0] == 'unsat': return 'discharged', r[2]
         cs = self._constraints([z3.Not(cond.z)], all_domains=True)
